@@ -401,7 +401,9 @@ def _unique_flux(grid, shape, h, f):
 @ob("C05.thin_flux", cases=lambda tier: [dict(shape=s, method=m, form=f, num_iter=k) for s in ([(4,), (1, 3), (3, 1), (1, 1, 3)] if tier == "quick" else [(2,), (4,), (6,), (1, 3), (3, 1), (1, 5), (1, 1, 3), (1, 3, 1), (4, 1, 1)])
                                          for m in ("newton", "bregman") for f in ("full", "pressure") for k in ((2,) if tier == "quick" else (1, 2, 3))]
     # every method OPTION: the Bregman penalty parameter L other than that of the Darcy initialisation (the system matrix changes between the initial and the first regular solve)
-    + [dict(shape=s, method="bregman", form=f, num_iter=2, L=L) for s in [(4,), (1, 3)] for f in ("full", "pressure", "flux_reduced") for L in (0.25, 3.0)],
+    + [dict(shape=s, method="bregman", form=f, num_iter=2, L=L) for s in [(4,), (1, 3)] for f in ("full", "pressure", "flux_reduced") for L in (0.25, 3.0)]
+    # the smallest iteration budgets, incl. the empty one (only the Darcy initialisation exists): still the cost of the unique flux
+    + [dict(shape=(4,), method=m, form=f, num_iter=k) for m in ("newton", "bregman") for f in ("full", "pressure") for k in (0, 1)],
     mods=["darsia.measure.wasserstein", "darsia.utils.fv", "darsia.utils.andersonacceleration"], stubs=STEP_STUBS, funcs=FUNCS, samples=(1, 2),
     budget={"timeout_ms": 30000, "paths": 64, "decide_ms": 1500, "arith_solver": 2, "wall_s": 400}, tol=1e-7,
     assumes=["splu(M).solve(b) returns x with M x = b exactly (direct back end)", "sparse-matrix model vf/symsparse.py (validated by C08.dep_sparse)",
